@@ -1674,7 +1674,11 @@ impl<'comments> Formatter<'comments> {
                 arguments: args,
                 ..
             } => match args.as_slice() {
-                [first, second] if is_breakable_expr(&second.value) && first.is_capture_hole() => {
+                [first, second]
+                    if is_breakable_expr(&second.value)
+                        && first.is_capture_hole()
+                        && first.label.is_none() =>
+                {
                     let discard_name = match first.value {
                         UntypedExpr::Var { ref name, .. } => name.split("_").last().unwrap_or("_"),
                         _ => "",
